@@ -470,9 +470,17 @@ hnd_generic(coap_resource_t *resource, coap_session_t *session, const coap_pdu_t
     coap_string_t *p = coap_get_uri_path(request);
     if (p) {
       coap_str_const_t *name = coap_new_str_const(p->s, p->length);
-      coap_resource_t *r = coap_resource_init(name, COAP_RESOURCE_FLAGS_RELEASE_URI | rc->large);
+      coap_resource_t *r = name ? coap_resource_init(name, COAP_RESOURCE_FLAGS_RELEASE_URI |
+                                                     rc->large) : NULL;
       char pb[160];
       rcfg_t *n2;
+      if (!r) {
+        if (name)
+          coap_delete_str_const(name);
+        coap_delete_string(p);
+        coap_pdu_set_code(response, COAP_RESPONSE_CODE(500));
+        return;
+      }
       snprintf(pb, sizeof(pb), "%.*s", (int)p->length, (const char *)p->s);
       n2 = new_rcfg(rc->node, pb);
       n2->body_kind = 4;
@@ -938,7 +946,9 @@ cmd_res(void) {
     snprintf(rc->path, sizeof(rc->path), "*proxy*");
   } else {
     coap_str_const_t *name = coap_new_str_const(p, plen);
-    r = coap_resource_init(name, COAP_RESOURCE_FLAGS_RELEASE_URI | flags);
+    r = name ? coap_resource_init(name, COAP_RESOURCE_FLAGS_RELEASE_URI | flags) : NULL;
+    if (name && !r)
+      coap_delete_str_const(name);
   }
   free(p);
   if (!r) {
@@ -970,8 +980,23 @@ cmd_res(void) {
       nb = vf_unhex(it, strlen(it), &nl);
       if (c)
         vb = vf_unhex(c + 1, strlen(c + 1), &vl);
-      coap_add_attr(r, coap_new_str_const(nb, nl), c ? coap_new_str_const(vb, vl) : NULL,
-                    COAP_ATTR_FLAGS_RELEASE_NAME | COAP_ATTR_FLAGS_RELEASE_VALUE);
+      {
+        coap_str_const_t *an = coap_new_str_const(nb, nl);
+        coap_str_const_t *av = c ? coap_new_str_const(vb, vl) : NULL;
+        if (an && (!c || av)) {
+          if (!coap_add_attr(r, an, av,
+                             COAP_ATTR_FLAGS_RELEASE_NAME | COAP_ATTR_FLAGS_RELEASE_VALUE)) {
+            coap_delete_str_const(an);
+            if (av)
+              coap_delete_str_const(av);
+          }
+        } else {
+          if (an)
+            coap_delete_str_const(an);
+          if (av)
+            coap_delete_str_const(av);
+        }
+      }
       free(nb);
       free(vb);
     }
@@ -1370,6 +1395,49 @@ cmd_peek(void) {
 }
 
 static void
+cmd_urihelpers(void) {
+  /* urihelpers <n> <sid> <urihex>: coap_new_uri, coap_uri_into_optlist,
+   * coap_path_into_optlist, coap_query_into_optlist, coap_add_optlist_pdu, coap_send */
+  int n = atoi(tok[1]);
+  coap_session_t *s = get_sess(n, atol(tok[2]));
+  size_t len;
+  uint8_t *u = vf_unhex(tok[3], strlen(tok[3]), &len);
+  coap_uri_t *uri = coap_new_uri(u, (unsigned)len);
+  coap_optlist_t *chain = NULL;
+  int r1 = -1, r2 = -1, r3 = -1, r4 = -1;
+  coap_mid_t mid = COAP_INVALID_MID;
+  if (uri) {
+    coap_uri_t *c2 = coap_clone_uri(uri);
+    r1 = coap_uri_into_optlist(uri, s ? coap_session_get_addr_remote(s) : NULL, &chain, 1);
+    if (c2)
+      coap_delete_uri(c2);
+  }
+  r2 = coap_path_into_optlist((const uint8_t *)"x/y/../z", 8, COAP_OPTION_LOCATION_PATH, &chain);
+  r3 = coap_query_into_optlist((const uint8_t *)"a=1&b", 5, COAP_OPTION_LOCATION_QUERY, &chain);
+  if (s) {
+    coap_pdu_t *pdu = coap_new_pdu(COAP_MESSAGE_CON, COAP_REQUEST_CODE_GET, s);
+    if (pdu) {
+      uint8_t t4[4] = {0xA7, 1, 2, 3};
+      coap_add_token(pdu, 4, t4);
+      r4 = coap_add_optlist_pdu(pdu, &chain);
+      mid = coap_send(s, pdu);
+    }
+  }
+  coap_delete_optlist(chain);
+  if (uri)
+    coap_delete_uri(uri);
+  free(u);
+  ev_begin("urihelpers");
+  ev_int("uri", uri != NULL);
+  ev_int("r1", r1);
+  ev_int("r2", r2);
+  ev_int("r3", r3);
+  ev_int("r4", r4);
+  ev_int("mid", mid);
+  ev_end();
+}
+
+static void
 cmd_peekobs(void) {
   /* grey-box, auxiliary: the subscribers the library currently holds */
   node_t *nd = &nodes[atoi(tok[1])];
@@ -1430,7 +1498,7 @@ static void
 run_command(void) {
   const char *c = tok[0];
   static const char *noded[] = {"node", "ctx", "ep", "res", "delres", "sess", "send", "notify",
-                                "prepare", "io", "peek", "peekobs", "verdict", "cancelobs", "release",
+                                "prepare", "io", "peek", "peekobs", "urihelpers", "verdict", "cancelobs", "release",
                                 "disconnect", "appref", "apprelease", "freenode", NULL};
   int i;
   for (i = 0; noded[i]; i++)
@@ -1476,6 +1544,8 @@ run_command(void) {
     cmd_peek();
   else if (!strcmp(c, "peekobs"))
     cmd_peekobs();
+  else if (!strcmp(c, "urihelpers"))
+    cmd_urihelpers();
   else if (!strcmp(c, "seed")) {
     prng_state = strtoull(tok[1], NULL, 10) * 2685821657736338717ULL + 1442695040888963407ULL;
     if (!prng_state)
@@ -1510,11 +1580,13 @@ run_command(void) {
     size_t tl;
     uint8_t *t = vf_unhex(tok[3], strlen(tok[3]), &tl);
     coap_binary_t *bt = coap_new_binary(tl);
-    int r;
+    int r = -1;
     vf_cur_node = atoi(tok[1]);
-    memcpy(bt->s, t, tl);
-    r = s ? coap_cancel_observe(s, bt, (coap_pdu_type_t)atoi(tok[4])) : -1;
-    coap_delete_binary(bt);
+    if (bt) {
+      memcpy(bt->s, t, tl);
+      r = s ? coap_cancel_observe(s, bt, (coap_pdu_type_t)atoi(tok[4])) : -1;
+      coap_delete_binary(bt);
+    }
     free(t);
     ev_begin("cancelobs");
     ev_int("r", r);
@@ -1570,6 +1642,11 @@ run_command(void) {
   }
 }
 
+static void
+vf_flush_on_death(void) {
+  fflush(stdout);
+}
+
 int
 main(void) {
   char *line = NULL;
@@ -1579,6 +1656,9 @@ main(void) {
   int i;
 
   setvbuf(stdout, obuf, _IOFBF, sizeof(obuf));
+  /* events produced before a sanitizer kills the process must not be lost */
+  if (__sanitizer_set_death_callback)
+    __sanitizer_set_death_callback(vf_flush_on_death);
   coap_startup();
   coap_set_prng(vf_prng);
   coap_set_show_pdu_output(0);
